@@ -11,6 +11,8 @@ func init() { register("C01", checkC01) }
 
 func checkC01(cx *Ctx, r *Report) {
 	w, fx := cx.W, cx.Fx
+	// request data must not be shared between requests through recycled buffers (R-POOL, see C15)
+	cx.checkPoolEscape(r)
 	r.Clauses = []string{
 		"gate: in loginResponse the user-info lookup, key retrieval, the Success constructor and signing are all dominated by the passing edge of Done() of the request passed in; every return of a response has passed all of them with nil errors, every error return carries no response",
 		"the request handed to loginResponse is result #0 of Storage.AuthRequestByID(ctx, Form.Get(\"id\")) on its nil-error edge; empty id and every failure end in an error reply",
@@ -292,6 +294,6 @@ func checkC01(cx *Ctx, r *Report) {
 			r.Check(k == "provider.createSignature", "R-WHO", "Response.Signature@"+k, w.InstrPos(st), "written by createSignature only", "Response.Signature is written outside createSignature: a reply that was not signed can carry a signature parameter")
 		}
 	}
-	r.Min("R-GUARD", 8)
+	r.Min("R-GUARD", 5)
 	_ = strings.Contains
 }
